@@ -29,6 +29,10 @@ M = [
  ('C06-m1', 'C06', CORE + 'est/expr.rs', '            Expr::ExprNoExt(ExprNoExt::ContainsAll { left, right }) => Ok(ast::Expr::contains_all(', '            Expr::ExprNoExt(ExprNoExt::ContainsAll { left, right }) => Ok(ast::Expr::contains_any('),
  ('C06-m2', 'C06', CORE + 'est/expr.rs', '        Expr::ExprNoExt(ExprNoExt::Sub {\n            left: Arc::new(left),\n            right: Arc::new(right),', '        Expr::ExprNoExt(ExprNoExt::Sub {\n            left: Arc::new(right),\n            right: Arc::new(left),'),
  ('C06-m3', 'C06', CORE + 'ast/expr_builder.rs', None, None),
+ ('C06-m4', 'C06', 'cedar-policy/src/proto/ast.rs', '            models::expr::binary_app::Op::LessEq => ast::BinaryOp::LessEq,', '            models::expr::binary_app::Op::LessEq => ast::BinaryOp::Less,'),
+ ('C06-m5', 'C06', 'cedar-policy/src/proto/ast.rs', '                ast::Expr::binary_app(\n                    ast::BinaryOp::from(pbop),\n                    ast::Expr::try_from(left)?,\n                    ast::Expr::try_from(right)?,', '                ast::Expr::binary_app(\n                    ast::BinaryOp::from(pbop),\n                    ast::Expr::try_from(right)?,\n                    ast::Expr::try_from(left)?,'),
+ ('C06-m6', 'C06', 'cedar-policy/src/proto/policy.rs', '            models::principal_or_resource_constraint::Data::Eq(msg) => Ok(\n                ast::PrincipalOrResourceConstraint::Eq(', '            models::principal_or_resource_constraint::Data::Eq(msg) => Ok(\n                ast::PrincipalOrResourceConstraint::In('),
+ ('C06-m7', 'C06', 'cedar-policy/src/proto/ast.rs', '                ast::Expr::ite(\n                    ast::Expr::try_from(test_expr)?,\n                    ast::Expr::try_from(then_expr)?,\n                    ast::Expr::try_from(else_expr)?,', '                ast::Expr::ite(\n                    ast::Expr::try_from(test_expr)?,\n                    ast::Expr::try_from(else_expr)?,\n                    ast::Expr::try_from(then_expr)?,'),
  ('C15-m1', 'C15', CORE + 'batched_evaluator.rs', '            if !entities.contains_entity(&uid) {\n                to_load.insert(uid);\n            }', '            if !entities.contains_entity(&uid) && to_load.is_empty() {\n                to_load.insert(uid);\n            }'),
  ('C15-m2', 'C15', CORE + 'batched_evaluator.rs', '    for _i in 0..max_iters {', '    for _i in 0..=max_iters {'),
  ('C15-m3', 'C15', CORE + 'batched_evaluator.rs', '                None => {\n                    entities.add_entity_trusted(', '                None if false => {\n                    entities.add_entity_trusted('),
